@@ -173,6 +173,11 @@ def mask_kernel_cases(rng, tier, n_random, inner_cells=4, hmax=3, wmax=3, stride
 
 
 def _gen_image(rng, tier):
+    # one frame whose unmasked pixel count crosses 2^15 (index tables held in a narrow integer type wrap there); 3x3 kernel
+    big = np.ones((184, 184), dtype=bool)
+    big[1:-1, 1:-1] = False
+    yield {"mask": big, "kernel": signed_kernel(rng, (3, 3)), "image": gens.reals(rng, big.shape, -5.0, 5.0, special=False),
+           "junk": gens.reals(rng, big.shape, -1e6, 1e6, special=False)}
     # most discriminating first: asymmetric signed kernels, non-square, smallest frames
     for mask, ks in mask_kernel_cases(rng, tier, gens.budget(tier, 800, 6000)):
         image = signed_image(rng, mask.shape)
